@@ -360,6 +360,11 @@ class PTA:
                         names.add(ch.name)
                         continue
                     if isinstance(ch, ast.Lambda):
+                        # lambda parameters live in the enclosing function's frame for this analysis (flow- and
+                        # context-insensitive anyway); a clash with a local of the same name only merges them
+                        for p_ in list(ch.args.posonlyargs) + list(ch.args.args) + list(ch.args.kwonlyargs):
+                            names.add(p_.arg)
+                        walk(ch)
                         continue
                     if isinstance(ch, ast.Name) and isinstance(ch.ctx, (ast.Store, ast.Del)):
                         names.add(ch.id)
@@ -858,7 +863,7 @@ class PTA:
             return set()
         if isinstance(e, ast.Lambda):
             self.ev(e.body)
-            return {self.alloc('ext', e, tag='lambda')}
+            return {self.alloc('ext', e, tag='lambda', extra=('lam', e, self._vq, self._cur))}
         if isinstance(e, ast.Starred):
             out = set()
             for o in self.ev(e.value):
@@ -1147,6 +1152,16 @@ class PTA:
             return self.apply_ext('builtins.' + c.extra[1], pos, kwargs, node, key, star)
         if c.kind == 'extmeth':
             return self.apply_extmeth(c.extra[1], c.extra[2], pos, kwargs, node, key)
+        if c.kind == 'ext' and c.extra and c.extra[0] == 'lam' and c.extra[3] is self._cur:
+            # a lambda of the function under analysis: bind its parameters (in the enclosing frame) and evaluate
+            lam = c.extra[1]
+            for i, p_ in enumerate(lam.args.args):
+                if i < len(pos) and pos[i]:
+                    self.add(('L', c.extra[2], p_.arg), pos[i])
+            for k, v in kwargs.items():
+                if v and any(p_.arg == k for p_ in lam.args.args):
+                    self.add(('L', c.extra[2], k), v)
+            return self.ev(lam.body)
         if c.kind in ('param', 'field', 'ext', 'ext_inst', 'inst'):
             # calling an unknown external object (interp1d result, user callback ...)
             if c.kind in ('inst', 'ext_inst') and c.cls is not None:
@@ -1342,18 +1357,26 @@ class PTA:
             res = self.alloc('ext', node, tag='res')
             for i in EXT_CALLBACK[dotted]:
                 cbs = pos[i] if i < len(pos) else kwargs.get('fun', kwargs.get('func', set()))
+                if dotted in ('builtins.map', 'builtins.filter') and len(pos) > 1:
+                    # map(f, it, ...): f is applied to the elements of the iterables and to nothing else
+                    for cb in cbs:
+                        cargs = [('p', self.iter_elems(a, node) if a else set())
+                                 for a in pos[1:]]
+                        r = self.apply(cb, cargs, {}, node, key)
+                        if dotted == 'builtins.map':
+                            self.add(('F', res, '[]'), r)
+                            if len(pos) == 2:
+                                self.add(('F', res, '<maps>'), pos[1])     # ranges over exactly this iterable
+                    if dotted == 'builtins.filter':
+                        for o in pos[1]:
+                            self.add(("F", res, "[]"), self.iter_elems({o}, node))
+                    continue
                 arg = self.alloc('ndarray', node, tag='cbarg')
                 self.add(('F', res, 'x'), [arg])
                 for cb in cbs:
                     r = self.apply(cb, [('p', {arg})], {}, node, key)
                     if dotted in ('builtins.map', 'builtins.filter'):
                         self.add(('F', res, '[]'), r)
-                if dotted in ('builtins.map', 'builtins.filter') and len(pos) > 1:
-                    for o in pos[1]:
-                        for cb in cbs:
-                            self.apply(cb, [('p', self.elems(o, None, False))], {}, node, key)
-                        if dotted == 'builtins.filter':
-                            self.add(('F', res, '[]'), self.elems(o, None, False))
             return {res}
         # generic external callable: result may retain references to its arguments
         res = self.alloc('ext', node, tag='res', extra=('xcls', dotted))
